@@ -25,6 +25,7 @@ static CONFIRMED_HANGS: AtomicU32 = AtomicU32::new(0);
 pub fn worker_main() -> ! {
     let stdin = std::io::stdin();
     let stdout = std::io::stdout();
+    crate::common::install_sink_logger();
     for line in stdin.lock().lines() {
         let line = match line {
             Ok(l) => l,
@@ -33,6 +34,7 @@ pub fn worker_main() -> ! {
         let mut parts = line.split('\t');
         let id = parts.next().unwrap_or("").to_string();
         let paths: Vec<String> = parts.map(|s| s.to_string()).collect();
+        log::set_max_level(if id.starts_with('T') { log::LevelFilter::Trace } else { log::LevelFilter::Off });
         let r = catch(|| gather_fibex_data(FibexConfig { fibex_file_paths: paths }));
         let ans = match r {
             Ok(Some(m)) => format!("some:{}", m.frame_map.len()),
@@ -76,7 +78,8 @@ impl Worker {
     /// Some(answer) or None on timeout / dead worker (the worker is killed in that case)
     fn load(&mut self, paths: &[String], deadline: Duration) -> Result<String, &'static str> {
         self.next_id += 1;
-        let id = self.next_id.to_string();
+        // a leading 'T' asks the worker to load with the log level at Trace (trace pass)
+        let id = format!("{}{}", if log::max_level() == log::LevelFilter::Trace { "T" } else { "" }, self.next_id);
         let mut line = id.clone();
         for p in paths {
             line.push('\t');
@@ -356,6 +359,24 @@ fn documents(tier: Tier) -> Vec<DocFaults> {
         with_bom.extend_from_slice(render_doc(&base, &Layout::default()).as_bytes());
         docs.push(("generated/default with BOM".into(), with_bom, true));
     }
+    // more than 20 instances in shuffled document order (sort implementations switch algorithm with
+    // the length; a deleted or damaged SEQUENCE-NUMBER then meets a different code path)
+    {
+        let n = 26usize;
+        let order: Vec<usize> = (0..n).map(|i| (i * 7 + 3) % n).collect();
+        let sigs = ["S_UINT8", "S_SINT16", "S_FLOA32", "S_BOOL", "S_STRG_UTF8", "S_RAWD"];
+        let mut elems: Vec<Elem> = vec![];
+        let names: Vec<(&str, usize)> = order.iter().map(|r| (sigs[*r % sigs.len()], *r)).collect();
+        elems.push(Elem::Pdu(pdu("PMANY", Desc::Text("many".into()), &names)));
+        let ids: Vec<String> = (0..n).map(|r| format!("Q{}", r)).collect();
+        for r in 0..n {
+            elems.push(Elem::Pdu(pdu(&ids[r], Desc::Absent, &[(sigs[r % sigs.len()], 0)])));
+        }
+        let refs: Vec<(&str, usize)> = order.iter().map(|r| (ids[*r].as_str(), *r * 3)).collect();
+        elems.push(Elem::Frame(frame("ID_77", "many", &refs, None)));
+        elems.push(Elem::Frame(frame("ID_78", "few", &[("PMANY", 0)], None)));
+        docs.push(("generated/26 shuffled instances".into(), render_doc(&elems, &Layout { indent: false, ..Layout::default() }).into_bytes(), false));
+    }
     // frames only / pdus only / empty elements section
     docs.push(("generated/frame referencing nothing".into(), render_doc(&[Elem::Frame(frame("ID_9", "lonely", &[], None))], &Layout::default()).into_bytes(), true));
     docs.push(("generated/no elements".into(), render_doc(&[], &Layout::default()).into_bytes(), true));
@@ -407,8 +428,23 @@ fn documents(tier: Tier) -> Vec<DocFaults> {
                     }
                 }
             }
-            if !corrupt {
-                // the large sample is only cut, deleted from and value-substituted in the quick tier
+            // one character of a value replaced by a 2-, 3- or 4-byte character, at every position of
+            // the first 16 (char-boundary arithmetic on ids such as S_UINT32)
+            if !big {
+                for (a, b) in s.attr_values.iter().chain(s.texts.iter()) {
+                    let cur = &doc[*a..*b];
+                    if cur.starts_with(b"http") || !cur.is_ascii() {
+                        continue;
+                    }
+                    for p in 0..cur.len().min(16) {
+                        for ch in ["\u{162}", "\u{20AC}", "\u{1F600}"] {
+                            let mut v = cur[..p].to_vec();
+                            v.extend_from_slice(ch.as_bytes());
+                            v.extend_from_slice(&cur[p + 1..]);
+                            substitutions.push((*a, *b, v, "one character of the value"));
+                        }
+                    }
+                }
             }
             DocFaults { name, doc, deletions, substitutions, corrupt }
         })
@@ -416,6 +452,7 @@ fn documents(tier: Tier) -> Vec<DocFaults> {
 }
 
 pub fn run(ctx: &Ctx) {
+    ctx.enable_trace_pass(ctx.tier.pick(20000u64, 100000u64));
     ctx.set_rule("case = (document, fault) or a bad path list; faults: EVERY truncation offset of every document, deletion of every single element subtree / end tag / attribute, every attribute value replaced by every other distinct attribute value of the document (reference retargeting incl. self references and cycles, duplicate ids), by \"\" and by an unknown id, every element text replaced by hostile constants and by the other texts of the document, every byte replaced by each of '<' '>' '/' '\"' '&' ' ' NUL 0xFF, its low bit flipped and its case bit flipped; each case is one load in a worker process under a wall-clock deadline; non-trivial = the faulty content differs from the intact document");
     ctx.assume(&format!("hang detection by wall clock: a healthy load takes < 30 ms (measured maximum); deadline {:?}, and a case that misses it is re-run alone with {:?} before it is called a hang; the run stops after {} confirmed hangs", DEADLINE, SOLO_DEADLINE, MAX_HANGS));
     ctx.assume("every loop iteration in read_event/read_pdu/read_frame consumes input except at end of file, where quick-xml keeps answering Eof: a hang needs 'Eof reached inside an inner loop', and every (loop, cut point) pair is in the truncation space");
